@@ -71,6 +71,28 @@ pub fn run(ctx: &Ctx) -> Report {
     let mut rng = Rng::new(ctx.seed ^ 0xC12);
     let n = ctx.n(40, 800);
     let mut lean_lines: Vec<String> = vec![]; let mut lean_expect: Vec<(bool, String, serde_json::Value)> = vec![];
+    // directed: proofs that rest on a NAMED rule with k premises, re-checked against programs in which that rule is
+    // removed, or has one more premise at the end / at the front of its body, or a different head
+    for k in 1..=3usize {
+        let hdr = "(sort E)\n(constructor A () E)\n(constructor B () E)\n(constructor G (E) E)\n(relation R (E))\n(relation S (E))\n(ruleset r0)\n";
+        let body = ["(= x (G y))", "(R y)", "(S y)"][..k].join(" ");
+        let rule = |b: &str, head: &str| format!("(rule ({b}) ({head}) :ruleset r0 :name \"collapse\")");
+        let facts = "(G (A))\n(R (A))\n(S (A))\n(B)\n";
+        let prog = format!("{hdr}{}\n{facts}(run r0 1)", rule(&body, "(union x y)"));
+        let mut pr = EGraph::new_with_proofs();
+        if !engine::run(&mut pr, &prog).is_ok() { rep.violate("correspondence", "c12-setup", "directed proof scenario rejected".into(), json!({"program": prog})); continue; }
+        let Ok(outs) = engine::run_outputs(&mut pr.clone(), "(prove (= (G (A)) (A)))") else { rep.violate("property", "c12-true-fact-without-proof", "(prove (= (G (A)) (A))) fails after the collapsing rule ran".into(), json!({"program": prog})); continue };
+        let Some(CommandOutput::ProveExists { proof_store, proof_id }) = outs.into_iter().find(|o| matches!(o, CommandOutput::ProveExists { .. })) else { continue };
+        rep.evaluations += 1; rep.note_nontrivial(&("directed-rule", k));
+        if let Err(e) = pr.verif_check_proof(&proof_store, proof_id) { rep.violate("property", "c12-proof-rejected", format!("directed scenario: the proof is rejected against the original program: {e}"), json!({"program": prog})); continue; }
+        for (what, altered_rule) in [("removed", String::new()), ("given one more premise at the end of its body", rule(&format!("{body} (= zz9 (B))"), "(union x y)")), ("given one more premise at the front of its body", rule(&format!("(= zz9 (B)) {body}"), "(union x y)")), ("given another head", rule(&body, "(union x (B))"))] {
+            let aprog = format!("{hdr}{altered_rule}\n{facts}");
+            let mut ae = EGraph::new_with_proofs();
+            if !engine::run(&mut ae, &aprog).is_ok() { continue; }
+            rep.count("rule_alteration_rechecks", 1);
+            if ae.verif_check_proof(&proof_store, proof_id).is_ok() { rep.violate("property", "c12-accepts-altered-rule", format!("a proof resting on rule `collapse` ({k} premises) is accepted against a program in which that rule was {what}"), json!({"program": prog, "altered_program": aprog})); }
+        }
+    }
     for pi in 0..n {
         let sig = pgen::gen_sig(&mut rng);
         let cmds: Vec<Cmd> = pgen::gen_program(&mut rng, &sig, &GenOpts { faults: false, subsume: false, delete: false, pushpop: false, ncmds: 10 }).into_iter().filter(|c| !matches!(c, Cmd::Check(_))).collect();
@@ -139,7 +161,11 @@ pub fn run(ctx: &Ctx) -> Report {
                         // number of premise proofs does not justify a step of the altered rule
                         for rname in used.iter().take(2) {
                             let mut hit = false;
-                            let altered: Vec<String> = text.iter().map(|c| if c.starts_with("(rule (") && c.contains(&format!(":name \"{rname}\"")) { hit = true; c.replacen("(rule (", "(rule ((= zz9 (A)) ", 1) } else { c.clone() }).collect();
+                            // the extra premise goes LAST in the body, so that the premises the proof does supply still line up
+                            let add_last = |c: &str| -> String { let b = c.as_bytes(); let start = "(rule ".len(); let mut depth = 0i32; let mut end = None; let mut in_str = false;
+                                for i in start..b.len() { let ch = b[i] as char; if ch == '"' { in_str = !in_str; } if in_str { continue; } if ch == '(' { depth += 1; } if ch == ')' { depth -= 1; if depth == 0 { end = Some(i); break; } } }
+                                match end { Some(e) => format!("{} (= zz9 (A)){}", &c[..e], &c[e..]), None => c.to_string() } };
+                            let altered: Vec<String> = text.iter().map(|c| if c.starts_with("(rule (") && c.contains(&format!(":name \"{rname}\"")) { hit = true; add_last(c) } else { c.clone() }).collect();
                             if !hit { continue; }
                             let mut ae = EGraph::new_with_proofs(); engine::run(&mut ae, &hdr); let mut ok = true; for c in &altered { if let engine::Outcome::Err(e) = engine::run(&mut ae, c) { if c.starts_with("(rule (") && c.contains("zz9") { ok = false; let _ = e; } } }
                             if !ok { continue; }
